@@ -55,7 +55,7 @@ def _cases(draw):
         d.tag("cfg.prune")
 
     def hook(dd, desc):
-        desc.scalar_kinds = {"Money": "money"}
+        desc.scalar_kinds = {"Money": "money", "Cents": "str"}
         if dt_style == "dotted" and "DateTime" in desc.scalars:
             desc.scalar_kinds["DateTime"] = "datetime"
 
@@ -70,6 +70,13 @@ def _cases(draw):
             for e in extras:
                 sc[e] = f"{e}_moneystr"
         cfg["scalars"]["Money"] = sc
+        if "Cents" in desc.scalars:
+            # another scalar sharing Money's Python type but carrying its own functions (imports per scalar, not per type)
+            sc2 = dict(sc)
+            for e in ("parse", "serialize"):
+                sc2[e] = f".scalars_impl.{e}_cents" if style == "relative" else f"{e}_cents"
+            cfg["scalars"]["Cents"] = sc2
+            dd.tag("scalar.two_scalars_one_type")
         if prune:
             cfg["include_all_inputs"] = False
             cfg["include_all_enums"] = False
@@ -80,7 +87,7 @@ def _cases(draw):
     toplevel_ok = "serialize" not in extras or d.enabled("scalar.serialize_toplevel")
     case = build(
         d, config=base_config(d), calls_per_op=2,
-        schema_kw={"scalar_names": ("Money", "DateTime"), "n_scalars": (1, 2), "scalar_weight": 4, "input_heavy": d.bool(0.6),
+        schema_kw={"scalar_names": ("Money", "DateTime", "Cents"), "n_scalars": (1, 3), "scalar_weight": 4, "input_heavy": d.bool(0.6),
                    "defaults": 0.0, "rich_names": True},
         ops_kw={"var_p": 0.7, "frag_p": 0.4}, doc_kw={"n_ops": (1, 3), "n_frags": (0, 3)},
         desc_hook=hook, config_desc_fn=cfg_fn, omit_p=0.35,
@@ -164,6 +171,7 @@ def run_case(case, scratch):
         return {"rejected": case["rejected"]}
     feats = case["features"]
     dt_vals = {"DateTime": ["2020-01-02T03:04:05", "1999-12-31T23:59:59"]} if case["dt_style"] == "dotted" else {}
+    dt_vals["Cents"] = ["c1", "c2", ""]
     sess = e2e.Session(case, scratch, server_kw={"unique_scalars": {"Money"}, "scalar_values": dt_vals})
     if sess.failure:
         return {"failures": [sess.failure], "units": 1, "features": feats}
